@@ -204,7 +204,8 @@ impl Sub for Concurrent {
         let mut results: Vec<(Stats, Result<(), Fail>)> = vec![];
         for round in 0..rounds {
             let fresh_sk = if round % 4 == 2 { api::keygen(c.n, seed).0 } else { api::Sk::from_bytes(c.n, &cached.sk_bytes).map_err(|e| Fail::new("sign:key-bytes", format!("the key's own bytes do not decode: {}", e)))? };
-            let key = Arc::new(api::Key { n: c.n, seed, sk: fresh_sk, pk: cached.pk.clone(), sk_bytes: cached.sk_bytes.clone(), pk_bytes: cached.pk_bytes.clone() });
+            let fresh_pk = api::Pk::from_bytes(c.n, &cached.pk_bytes).map_err(|e| Fail::new("sign:key-bytes", format!("the public key's own bytes do not decode: {}", e)))?;
+            let key = Arc::new(api::Key { n: c.n, seed, sk: fresh_sk, pk: fresh_pk, sk_bytes: cached.sk_bytes.clone(), pk_bytes: cached.pk_bytes.clone() });
             if round % 2 == 1 {
                 let mut warm = Stats::default();
                 sign_and_check(c.n, &key, b"warm-up", &Mode::Natural, &mut warm)?;
